@@ -94,11 +94,25 @@ theorem emits_eq_nil_of_off (r : Row) (m : Msg) (mode : Mode) (hoff : r.writeGua
     r.emits m mode = [] := by
   unfold Row.emits; simp [hoff]
 
+theorem wfSplit_of_mem {T : Table} (h : WFsplit T) {r : Row} (hr : r ∈ T.rows) :
+    r.wfShared = true ∧ r.wfWrapper = true := by
+  have := List.all_eq_true.mp h r hr
+  simpa using this
+
+theorem wfSplit_of_wfWrite {T : Table} (h : WFwrite T) : WFsplit T := by
+  unfold WFsplit
+  rw [List.all_eq_true]
+  intro r hr
+  have := List.all_eq_true.mp h r hr
+  unfold Row.wfWrite at this
+  simp only [Bool.and_eq_true] at this ⊢
+  exact ⟨this.1.2, this.2⟩
+
 /-- one row's share of the partition identity -/
-theorem row_partition (r : Row) (m : Msg) (hw : r.wfWrite = true) :
+theorem row_partition (r : Row) (m : Msg) (hw : r.wfWrapper = true) :
     r.emits m .all ++ (if !r.wrapper && (r.writeGuard == .both || r.writeGuard == .pubOnly) && r.live m then m r.name else [])
       = r.emits m .pub ++ (if r.wrapper then [] else r.emits m .sens) := by
-  unfold Row.wfWrite at hw
+  unfold Row.wfWrapper at hw
   unfold Row.emits
   cases hwr : r.wrapper <;> cases hg : r.writeGuard <;> cases hl : r.live m <;>
     simp_all [Guard.on]
@@ -171,7 +185,7 @@ def partMode (mode : Mode) : Prop := mode = .pub ∨ mode = .sens
 
 /-- An element of row `r` present in a part can only be recognised as `r` (distinguishability). -/
 theorem recognise_owner {T : Table} (hs : WFshape T) {r : Row} (hr : r ∈ T.rows) {e : Elem}
-    (ht : e.tag ∈ r.tags) (hn : e.ns ∈ r.nss) {mode : Mode} (hm : partMode mode)
+    (ho : r.owns T e) {mode : Mode} (hm : partMode mode)
     (hon : r.writeGuard.on mode = true) {r' : Row} (h : recognise T mode e = some r') : r' = r := by
   obtain ⟨hd, hnn, hsr⟩ := hs
   unfold recognise at h
@@ -182,6 +196,16 @@ theorem recognise_owner {T : Table} (hs : WFshape T) {r : Row} (hr : r ∈ T.row
     unfold Table.sameRows at hsr
     simp only [Bool.and_eq_true, List.all_eq_true] at hsr
     simpa using hsr.1 r' hmem'
+  unfold Row.owns at ho
+  cases hca : r.catchAll
+  case true =>
+    -- nothing recognises an element of the catch-all row
+    simp only [hca, if_true] at ho
+    have := ho r' hr'
+    rw [hp.2] at this
+    cases this
+  simp only [hca, Bool.false_eq_true, if_false] at ho
+  obtain ⟨ht, hn⟩ := ho
   by_cases hname : r'.name = r.name
   · exact eq_of_name_eq T hnn hr' hr hname
   · exfalso
@@ -199,13 +223,18 @@ theorem recognise_owner {T : Table} (hs : WFshape T) {r : Row} (hr : r ∈ T.row
     cases this
 
 /-- …and is recognised as `r` when `r`'s recogniser is sound and enabled. -/
-theorem recognise_own {T : Table} (hs : WFshape T) {r : Row} (hr : r ∈ T.rows) (hp : r.wfParse = true) {e : Elem}
-    (ht : e.tag ∈ r.tags) (hn : e.ns ∈ r.nss) {mode : Mode} (hm : partMode mode)
+theorem recognise_own {T : Table} (hs : WFshape T) {r : Row} (hr : r ∈ T.rows) (hp : r.wfParse = true)
+    (hca : r.catchAll = false) {e : Elem}
+    (ho : r.owns T e) {mode : Mode} (hm : partMode mode)
     (hon : r.writeGuard.on mode = true) (hpon : r.parseGuard.on mode = true) :
     recognise T mode e = some r := by
+  have ho' := ho
+  unfold Row.owns at ho'
+  simp only [hca, Bool.false_eq_true, if_false] at ho'
+  obtain ⟨ht, hn⟩ := ho'
   have hacc : r.recog.accepts e.tag e.ns = true := by
     unfold Row.wfParse at hp
-    simp only [Bool.and_eq_true, List.all_eq_true] at hp
+    simp only [hca, Bool.false_eq_true, if_false, Bool.and_eq_true, List.all_eq_true] at hp
     exact hp.2 e.tag ht e.ns hn
   have hmem : r ∈ T.parse := by
     have := hs.2.2
@@ -218,13 +247,14 @@ theorem recognise_own {T : Table} (hs : WFshape T) {r : Row} (hr : r ∈ T.rows)
     exact ⟨r, hmem, by simp [hpon, hacc]⟩
   cases hrec : recognise T mode e with
   | none => simp [hrec] at hsome
-  | some r' => rw [recognise_owner hs hr ht hn hm hon hrec]
+  | some r' => rw [recognise_owner hs hr ho hm hon hrec]
 
 /-- parse guard of a sound row is on wherever the row is written (wrapper rows: everywhere) -/
-theorem parse_on_of_write_on {r : Row} (hp : r.wfParse = true) {mode : Mode} (hon : r.writeGuard.on mode = true) :
+theorem parse_on_of_write_on {r : Row} (hp : r.wfParse = true) (hca : r.catchAll = false) {mode : Mode}
+    (hon : r.writeGuard.on mode = true) :
     r.parseGuard.on mode = true := by
   unfold Row.wfParse at hp
-  simp only [Bool.and_eq_true] at hp
+  simp only [hca, Bool.false_eq_true, if_false, Bool.and_eq_true] at hp
   have h1 := hp.1.1.1
   cases hw : r.wrapper
   · simp only [hw] at h1
@@ -238,8 +268,9 @@ theorem parse_on_of_write_on {r : Row} (hp : r.wfParse = true) {mode : Mode} (ho
 returns exactly `r0`'s emission, provided `r0` is not skipped. -/
 theorem filter_part {T : Table} (hs : WFshape T) (mode : Mode) (hm : partMode mode) (full : Bool)
     (g : Row → List Elem)
-    (hg : ∀ r ∈ T.rows, ∀ e ∈ g r, e.tag ∈ r.tags ∧ e.ns ∈ r.nss ∧ r.writeGuard.on mode = true)
-    {r0 : Row} (h0 : r0 ∈ T.rows) (hp : r0.wfParse = true) (hskip : g r0 = [] ∨ (full || !r0.wrapper) = true) :
+    (hg : ∀ r ∈ T.rows, ∀ e ∈ g r, r.owns T e ∧ r.writeGuard.on mode = true)
+    {r0 : Row} (h0 : r0 ∈ T.rows) (hp : r0.wfParse = true) (hca : r0.catchAll = false)
+    (hskip : g r0 = [] ∨ (full || !r0.wrapper) = true) :
     (T.rows.flatMap g).filter (taken T mode full r0.name) = g r0 := by
   rw [List.filter_flatMap]
   have : ∀ r ∈ T.rows, (g r).filter (taken T mode full r0.name) = if r.name = r0.name then g r else [] := by
@@ -250,8 +281,8 @@ theorem filter_part {T : Table} (hs : WFshape T) (mode : Mode) (hm : partMode mo
       simp only [if_true]
       rw [List.filter_eq_self]
       intro e he
-      obtain ⟨ht, hn, hon⟩ := hg r hr e he
-      have hrec := recognise_own hs hr hp ht hn hm hon (parse_on_of_write_on hp hon)
+      obtain ⟨ho, hon⟩ := hg r hr e he
+      have hrec := recognise_own hs hr hp hca ho hm hon (parse_on_of_write_on hp hca hon)
       unfold taken
       rw [hrec]
       rcases hskip with hnil | hsk
@@ -260,52 +291,75 @@ theorem filter_part {T : Table} (hs : WFshape T) (mode : Mode) (hm : partMode mo
     · simp only [hname, if_false]
       rw [List.filter_eq_nil_iff]
       intro e he
-      obtain ⟨ht, hn, hon⟩ := hg r hr e he
+      obtain ⟨ho, hon⟩ := hg r hr e he
       unfold taken
       cases hrec : recognise T mode e with
       | none => simp
       | some r' =>
-        have := recognise_owner hs hr ht hn hm hon hrec
+        have := recognise_owner hs hr ho hm hon hrec
         subst this
         simp [hname]
   rw [flatMap_congr' _ _ _ this]
   exact flatMap_single T.rows hs.2.1 r0 h0 g
 
 theorem valid_emits {T : Table} {m : Msg} (hv : Msg.Valid T m) (mode : Mode) :
-    ∀ r ∈ T.rows, ∀ e ∈ r.emits m mode, e.tag ∈ r.tags ∧ e.ns ∈ r.nss ∧ r.writeGuard.on mode = true := by
+    ∀ r ∈ T.rows, ∀ e ∈ r.emits m mode, r.owns T e ∧ r.writeGuard.on mode = true := by
   intro r hr e he
   obtain ⟨hmem, hon, _⟩ := emits_sub r m mode he
-  exact ⟨((hv r hr).1 e hmem).1, ((hv r hr).1 e hmem).2, hon⟩
+  exact ⟨(hv r hr).1 e hmem, hon⟩
+
+theorem valid_emits_ext {T : Table} {m : Msg} (hv : Msg.Valid T m) :
+    ∀ r ∈ T.rows, ∀ e ∈ (if r.wrapper then [] else r.emits m .sens), r.owns T e ∧ r.writeGuard.on .sens = true := by
+  intro r hr e he
+  split at he
+  · cases he
+  · exact valid_emits hv .sens r hr e he
 
 /-- The field of a sound row after the two-step receive path. -/
 theorem recover_field {T : Table} (hs : WFshape T) {m : Msg} (hv : Msg.Valid T m)
-    {r0 : Row} (h0 : r0 ∈ T.rows) (hp : r0.wfParse = true) :
+    {r0 : Row} (h0 : r0 ∈ T.rows) (hp : r0.wfParse = true) (hca : r0.catchAll = false) :
     (recover T m).msg r0.name = r0.emits m .pub ++ (if r0.wrapper then [] else r0.emits m .sens) := by
   unfold recover
   rw [parseMode_msg, parseMode_msg]
   simp only [Msg.empty, List.nil_append]
   unfold publicPart sensitivePart writeMode writeExt
-  rw [filter_part hs .pub (Or.inl rfl) true (fun r => r.emits m .pub) (valid_emits hv .pub) h0 hp (Or.inr (by simp))]
+  rw [filter_part hs .pub (Or.inl rfl) true (fun r => r.emits m .pub) (valid_emits hv .pub) h0 hp hca (Or.inr (by simp))]
   rw [filter_part hs .sens (Or.inr rfl) false (fun r => if r.wrapper then [] else r.emits m .sens)
-    (by
-      intro r hr e he
-      split at he
-      · cases he
-      · exact valid_emits hv .sens r hr e he) h0 hp
-    (by cases hw : r0.wrapper <;> simp)]
+    (valid_emits_ext hv) h0 hp hca (by cases hw : r0.wrapper <;> simp)]
 
-/-- Nothing is left unrecognised in a part whose rows are all sound. -/
-theorem unknown_nil {T : Table} (hs : WFshape T) (hp : T.rows.all Row.wfParse = true) (mode : Mode) (hm : partMode mode)
+/-- What is left unrecognised in a part whose rows are all sound: exactly the elements of the catch-all row(s). -/
+theorem unknown_part {T : Table} (hs : WFshape T) (hp : T.rows.all Row.wfParse = true) (mode : Mode) (hm : partMode mode)
     (g : Row → List Elem)
-    (hg : ∀ r ∈ T.rows, ∀ e ∈ g r, e.tag ∈ r.tags ∧ e.ns ∈ r.nss ∧ r.writeGuard.on mode = true) :
-    (T.rows.flatMap g).filter (unrecognised T mode) = [] := by
-  rw [List.filter_eq_nil_iff]
-  intro e he
-  obtain ⟨r, hr, her⟩ := List.mem_flatMap.mp he
-  obtain ⟨ht, hn, hon⟩ := hg r hr e her
+    (hg : ∀ r ∈ T.rows, ∀ e ∈ g r, r.owns T e ∧ r.writeGuard.on mode = true) :
+    (T.rows.flatMap g).filter (unrecognised T mode) = T.rows.flatMap (fun r => if r.catchAll then g r else []) := by
+  rw [List.filter_flatMap]
+  apply flatMap_congr'
+  intro r hr
   have hpr := List.all_eq_true.mp hp r hr
-  have := recognise_own hs hr hpr ht hn hm hon (parse_on_of_write_on hpr hon)
-  simp [unrecognised, this]
+  cases hca : r.catchAll
+  · simp only [Bool.false_eq_true, if_false]
+    rw [List.filter_eq_nil_iff]
+    intro e he
+    obtain ⟨ho, hon⟩ := hg r hr e he
+    have := recognise_own hs hr hpr hca ho hm hon (parse_on_of_write_on hpr hca hon)
+    simp [unrecognised, this]
+  · simp only [if_true]
+    rw [List.filter_eq_self]
+    intro e he
+    obtain ⟨ho, hon⟩ := hg r hr e he
+    unfold unrecognised
+    cases hrec : recognise T mode e with
+    | none => rfl
+    | some r' =>
+      -- impossible: the owner would be `r`, whose recogniser (`never`) accepts nothing
+      have h1 := recognise_owner hs hr ho hm hon hrec
+      subst h1
+      unfold recognise at hrec
+      have h2 := List.find?_some hrec
+      unfold Row.wfParse at hpr
+      simp only [hca, if_true, Bool.and_eq_true, beq_iff_eq] at hpr
+      rw [hpr.2] at h2
+      simp [Recog.accepts] at h2
 
 theorem wfParse_of_not_offending {T : Table} {r : Row} (hr : r ∈ T.rows) (h : r.name ∉ offendingParse T) :
     r.wfParse = true := by
@@ -314,5 +368,42 @@ theorem wfParse_of_not_offending {T : Table} {r : Row} (hr : r ∈ T.rows) (h : 
   cases hw : r.wfParse
   · exact absurd rfl (h r hr hw)
   · rfl
+
+theorem cls_catchAll {r : Row} (h : r.catchAll = true) : r.cls = .payload := by
+  unfold Row.cls; simp [h]
+
+theorem wfWrite_or_offending {T : Table} {r : Row} (hr : r ∈ T.rows) :
+    r.wfWrite = true ∨ r.name ∈ offendingWrite T := by
+  cases hw : r.wfWrite
+  · right
+    unfold offendingWrite
+    exact List.mem_map.mpr ⟨r, List.mem_filter.mpr ⟨hr, by simp [hw]⟩, rfl⟩
+  · left; rfl
+
+/-- a row whose class is not `payload` (and which is not the designated fallback-text field) gets that class from the
+spec applied to EVERY wire identity it can write -/
+theorem cls_of_wire {r : Row} (hn : r.name ≠ fallbackTextField) (hc : r.cls ≠ .payload)
+    {t n : String} (ht : t ∈ r.tags) (hns : n ∈ r.nss) : classOfWire t n = r.cls ∧ r.catchAll = false := by
+  unfold Row.cls at hc ⊢
+  have hn' : (r.name == fallbackTextField) = false := by simpa using hn
+  cases hca : r.catchAll
+  case true => simp [hca] at hc
+  simp only [hca, hn', Bool.false_eq_true, if_false] at hc ⊢
+  have hmem : classOfWire t n ∈ r.wireClasses := by
+    unfold Row.wireClasses
+    exact List.mem_flatMap.mpr ⟨t, ht, List.mem_map.mpr ⟨n, hns, rfl⟩⟩
+  cases hwc : r.wireClasses with
+  | nil => rw [hwc] at hmem; cases hmem
+  | cons c cs =>
+    rw [hwc] at hmem hc
+    simp only at hc ⊢
+    by_cases hall : cs.all (· == c) = true
+    · simp only [hall, if_true] at hc ⊢
+      refine ⟨?_, trivial⟩
+      rcases List.mem_cons.mp hmem with h | h
+      · exact h
+      · have := List.all_eq_true.mp hall _ h
+        simpa using this
+    · simp [hall] at hc
 
 end Qx.C17
